@@ -83,9 +83,10 @@ func safeExtract(r directives.Range) (s string) {
 }
 
 type parsed struct {
-	ok   bool
-	dirs []any
-	gaps []any
+	ok    bool
+	dirs  []any
+	gaps  []any
+	lines []any
 	file directives.File
 }
 
@@ -104,19 +105,59 @@ func parseForFormat(text string) (p parsed) {
 		return
 	}
 	p.ok, p.file = true, f
-	pos := 0
+	// a gap starts after the line break that ends the directive's last line: the ranges of the multi-line forms
+	// (transactions, balance blocks) include that line break, the ranges of the one-line forms do not
+	pos, own := 0, true
+	gap := func(to int) string {
+		g := text[pos:to]
+		if !own && strings.HasPrefix(g, "\n") {
+			g = g[1:]
+		}
+		return g
+	}
 	for _, d := range f.Directives {
 		var fs []any
 		fieldsOf(reflect.ValueOf(d.Directive), &fs)
 		p.dirs = append(p.dirs, fs)
-		p.gaps = append(p.gaps, text[pos:d.Start])
-		pos = d.End
+		p.gaps = append(p.gaps, gap(d.Start))
+		pos, own = d.End, d.End > d.Start && text[d.End-1] == '\n'
 	}
-	p.gaps = append(p.gaps, text[pos:])
+	p.gaps = append(p.gaps, gap(len(text)))
 	if p.dirs == nil {
 		p.dirs = []any{}
 	}
+	p.lines = linesAround(text, f.Directives)
 	return
+}
+
+// linesAround is the reader's view of a file: its directives ("D") interleaved with the complete lines that lie
+// outside every directive ("L" + the line). A directive's range may or may not include its last line break (the
+// multi-line forms do), so a line break that moves between a directive and the following gap leaves the gap
+// texts equal although a blank line has disappeared; the line view sees it.
+func linesAround(text string, ds []directives.Directive) []any {
+	out := []any{}
+	k := 0 // the next directive that has not started yet
+	for ls := 0; ls < len(text); {
+		le := ls
+		for le < len(text) && text[le] != '\n' {
+			le++
+		}
+		content := text[ls:le]
+		if le < len(text) {
+			le++
+		}
+		inside := k > 0 && ds[k-1].End > ls
+		for k < len(ds) && ds[k].Start < le {
+			out = append(out, "D")
+			k++
+			inside = true
+		}
+		if !inside {
+			out = append(out, "L"+content)
+		}
+		ls = le
+	}
+	return out
 }
 
 func formatLib(f directives.File) (out string, panicked bool) {
@@ -134,7 +175,7 @@ func formatLib(f directives.File) (out string, panicked bool) {
 
 func formatCase(bin, dir string, id int, text string) map[string]any {
 	cs := map[string]any{"id": id, "text": text, "panicked": false, "afterParses": false, "idempotent": false, "cliEqualsLib": false, "cliExit": 0, "cliUnchanged": false, "inkBefore": "", "inkAfter": "",
-		"before": map[string]any{"dirs": []any{}, "gaps": []any{}}, "after": map[string]any{"dirs": []any{}, "gaps": []any{}}}
+		"before": map[string]any{"dirs": []any{}, "gaps": []any{}, "lines": []any{}}, "after": map[string]any{"dirs": []any{}, "gaps": []any{}, "lines": []any{}}}
 	before := parseForFormat(text)
 	cs["parseable"] = before.ok
 	file := filepath.Join(dir, fmt.Sprintf("f%d.knut", id))
@@ -165,8 +206,8 @@ func formatCase(bin, dir string, id int, text string) map[string]any {
 	if !ap.ok {
 		return cs
 	}
-	cs["before"] = map[string]any{"dirs": before.dirs, "gaps": before.gaps}
-	cs["after"] = map[string]any{"dirs": ap.dirs, "gaps": ap.gaps}
+	cs["before"] = map[string]any{"dirs": before.dirs, "gaps": before.gaps, "lines": before.lines}
+	cs["after"] = map[string]any{"dirs": ap.dirs, "gaps": ap.gaps, "lines": ap.lines}
 	again, pan2 := formatLib(ap.file)
 	cs["idempotent"] = !pan2 && again == after
 	return cs
